@@ -236,6 +236,7 @@ def c14(ctx):
               dist=st)
     real_gpg(ctx, r, quick)
     failing_signer(ctx)
+    no_signing_environment(ctx, r, quick)
 
 
 def failing_signer(ctx):
@@ -402,3 +403,85 @@ def real_gpg(ctx, r, quick):
         else:
             os.environ['GNUPGHOME'] = old_home
     ctx.count('pgp:real-gpg-signing', st['runs'], st['runs'], dist=st)
+
+
+def no_signing_environment(ctx, r, quick):
+    """signing is in effect (requested, or inherited from a Manifest that was loaded with a valid signature) but the caller handed over no
+    OpenPGP environment - the default of ManifestRecursiveLoader and of ManifestFile.dump: nobody can sign, so the save / dump must end with
+    an error; it never returns having written an unsigned Manifest"""
+    import io
+    import tempfile
+    import shutil
+    import gemato.manifest as gm
+    import gemato.recursiveloader as rl
+
+    class Env:                      # accepts everything (only used to load a Manifest as validly signed)
+        def verify_file(self, f):
+            import gemato.openpgp as go
+            f.read()
+            return go.OpenPGPSignatureData('F' * 40, None, None, 'F' * 40)
+
+        def clear_sign_file(self, f, outf, keyid=None):
+            outf.write(signed_text(f.read()))
+
+    def signed_text(body):
+        return BEGIN.decode() + '\nHash: SHA512\n\n' + body + SIGB.decode() + '\n\nFAKE\n-----END PGP SIGNATURE-----\n'
+    st = {'runs': 0, 'errors_reported': 0, 'controls_signed': 0}
+    td = tempfile.mkdtemp(prefix='gv-c14n-')
+    try:
+        for i in range(30 if quick else 300):
+            tree = os.path.join(td, 't%d' % i)
+            os.makedirs(os.path.join(tree, 'sub'))
+            for name in ['a', 'sub/b'][:r.randint(1, 2)]:
+                open(os.path.join(tree, name), 'w').write('x' * r.randint(0, 9))
+            body = 'DATA a 0\n' if r.random() < 0.5 else ''
+            orig_signed = r.random() < 0.5
+            text = signed_text(body) if orig_signed else body
+            open(os.path.join(tree, 'Manifest'), 'w').write(text)
+            sign = r.choice([True, None]) if orig_signed else True
+            front = r.choice(['save_manifests', 'save_manifest', 'dump'])
+            keyid = r.choice([None, '0xDEADBEEF'])
+            with_env = r.random() < 0.25         # control: the same call with an environment signs
+            replay = {'front_end': front, 'sign_openpgp': sign, 'top_level_loaded_signed': orig_signed, 'openpgp_keyid': keyid, 'environment': with_env,
+                      'manifest': text}
+            res = 'returned'
+            out = None
+            try:
+                if front == 'dump':
+                    m = gm.ManifestFile()
+                    with io.StringIO(text) as f:
+                        m.load(f, verify_openpgp=orig_signed, openpgp_env=Env() if orig_signed else None)
+                    o = io.StringIO()
+                    m.dump(o, sign_openpgp=sign, openpgp_keyid=keyid, openpgp_env=Env() if with_env else None)
+                    out = o.getvalue()
+                else:
+                    # (the environment is needed to load the signed top-level Manifest; it is taken away before saving)
+                    l = rl.ManifestRecursiveLoader(os.path.join(tree, 'Manifest'), verify_openpgp=orig_signed, openpgp_env=Env() if (orig_signed or with_env) else None,
+                                                   sign_openpgp=sign, openpgp_keyid=keyid, hashes=['SHA1'])
+                    if not with_env:
+                        l.openpgp_env = None
+                        if hasattr(l, 'manifest_loader'):
+                            l.manifest_loader.openpgp_env = None
+                    l.update_entries_for_directory('')
+                    if front == 'save_manifest':
+                        l.save_manifest('Manifest')
+                    else:
+                        l.save_manifests(force=True)
+                    out = open(os.path.join(tree, 'Manifest')).read()
+            except Exception as e:
+                res = type(e).__name__
+            st['runs'] += 1
+            replay['result'] = res
+            replay['written'] = (out or '')[:300]
+            if with_env:
+                if res == 'returned' and out.startswith(BEGIN.decode()):
+                    st['controls_signed'] += 1
+                else:
+                    ctx.violation('spec', f'{front} with signing in effect and an OpenPGP environment did not write a signed Manifest ({res})', replay)
+            elif res == 'returned':
+                ctx.violation('spec', f'{front} returned although signing is in effect and there is no OpenPGP environment to sign with: an unsigned Manifest was written silently', replay)
+            else:
+                st['errors_reported'] += 1
+    finally:
+        shutil.rmtree(td, ignore_errors=True)
+    ctx.count('pgp:no-signing-environment', st['runs'], st['runs'], dist=st)
